@@ -30,7 +30,11 @@ func simSetSelectSeed(s uint64) {
 		s = 0x9e3779b97f4a7c15
 	}
 	simSelectState = s
-	simUserState = 0
+	// the user stream is seeded here, not at first use: when it is first used must not matter
+	simUserState = s ^ 0x9e3779b97f4a7c15
+	if simUserState == 0 {
+		simUserState = 1
+	}
 }
 
 // simGetLabel / simSetLabel give the harness a goroutine-inherited pointer (it reuses the
@@ -123,9 +127,6 @@ var simUserState uint64
 //go:nosplit
 func simUserRand() uint64 {
 	x := simUserState
-	if x == 0 {
-		x = simSelectState ^ 0x9e3779b97f4a7c15
-	}
 	x ^= x << 13
 	x ^= x >> 7
 	x ^= x << 17
